@@ -221,6 +221,34 @@ func init() {
 			fr.i.sched.yield(fr, always)
 			return nil, true
 		},
+		"vxRunAll": func(fr *frame, a []value) (value, bool) {
+			// let every other goroutine run until none of them can make progress
+			sc := fr.i.sched
+			for n := 0; ; n++ {
+				others := 0
+				for _, g := range sc.runnable() {
+					if g != sc.cur {
+						others++
+					}
+				}
+				if others == 0 {
+					return nil, true
+				}
+				if n > 10000 {
+					abort("vxRunAll: goroutines do not quiesce")
+				}
+				sc.yieldToOthers(fr)
+			}
+		},
+		"vxLiveGoroutines": func(fr *frame, a []value) (value, bool) {
+			n := 0
+			for _, g := range fr.i.sched.gs {
+				if !g.done && !g.main {
+					n++
+				}
+			}
+			return n, true
+		},
 		"vxBgPanics": func(fr *frame, a []value) (value, bool) {
 			return len(fr.i.sched.bgPanics), true
 		},
